@@ -10,8 +10,10 @@ export GOFLAGS=-mod=mod GOPROXY=off GOSUMDB=off GOTOOLCHAIN=local
 WT="/tmp/tryseed-$PROP-${DEST_K:-$K}"
 git -C /repo worktree remove --force "$WT" 2>/dev/null
 BASEREF="${SEED_BASE:-HEAD}"
+PATCH="$SRC/patch.diff"; [ -f "$SRC/patch-ported-to-HEAD.diff" ] && PATCH="$SRC/patch-ported-to-HEAD.diff"
+[ -f "/verif/seeded/$PROP-$DK/patch-ported-to-HEAD.diff" ] && PATCH="/verif/seeded/$PROP-$DK/patch-ported-to-HEAD.diff"
 git -C /repo worktree add -q "$WT" "$BASEREF" || exit 2
-if ! git -C "$WT" apply --check "$SRC/patch.diff" 2>/dev/null && [ -n "${SEED_FALLBACK:-}" ]; then
+if ! git -C "$WT" apply --check "$PATCH" 2>/dev/null && [ -n "${SEED_FALLBACK:-}" ]; then
   git -C /repo worktree remove --force "$WT"; BASEREF="$SEED_FALLBACK"; git -C /repo worktree add -q "$WT" "$BASEREF" || exit 2
 fi
 BASE=$(git -C "$WT" rev-parse --short HEAD)
@@ -22,7 +24,7 @@ cd "$WT"
 for d in $DEMOS; do cp "$SRC/$d" "$WT/$PKG/"; done
 CLEAN=$(go test -count=1 ./$PKG/ 2>&1 | tail -1)
 for d in $DEMOS; do rm "$WT/$PKG/$d"; done
-if ! git apply "$SRC/patch.diff"; then echo "PATCH DOES NOT APPLY"; git -C /repo worktree remove --force "$WT"; exit 2; fi
+if ! git apply "$PATCH"; then echo "PATCH DOES NOT APPLY"; git -C /repo worktree remove --force "$WT"; exit 2; fi
 BUILD=$(go build ./... 2>&1 | tail -2)
 SUITE=$(go test -count=1 ./... 2>&1 | grep -v "no test files" | grep -v "^ok" | head -5)
 for d in $DEMOS; do cp "$SRC/$d" "$WT/$PKG/"; done
@@ -37,7 +39,7 @@ echo "$OUT" | grep -E "VIOLATION|SUMMARY|INCONCLUSIVE" | cut -c1-260 | head -6
 echo "check exit: $RC"
 DEST="/verif/seeded/$PROP-$DK"
 mkdir -p "$DEST"
-[ -f "$DEST/patch.diff" ] || cp "$SRC/patch.diff" "$DEST/"; for d in $DEMOS; do cp "$SRC/$d" "$DEST/"; done; [ -f "$SRC/README.md" ] && cp "$SRC/README.md" "$DEST/"
+[ -f "$DEST/patch.diff" ] || cp "$SRC/patch.diff" "$DEST/"; for d in $DEMOS; do cp "$SRC/$d" "$DEST/"; done; [ -f "$SRC/README.md" ] && cp "$SRC/README.md" "$DEST/"; [ -f "$SRC/patch-ported-to-HEAD.diff" ] && cp "$SRC/patch-ported-to-HEAD.diff" "$DEST/"
 python3 - "$DEST" "$PROP" "$DK" "$PKG" "$BASE" "$CLEAN" "$MUT" "${SUITE:-none}" "$RC" "$TIER" "$CHK" <<'PY'
 import json,sys,os,re
 dest,prop,k,pkg,base,clean,mut,suite,rc,tier,chk=sys.argv[1:]
